@@ -68,6 +68,13 @@ def alphabet(cs, cls, reduced=False):
             A.append(("call", m, None))
     if "inertia_tensor" in getters:
         A.append(("read", "inertia_tensor", None))
+    # the core of a spheropolytope is handed out as an object of its own: resizing / moving it is a mutation of the shape
+    core = {"ConvexSpheropolyhedron": ("polyhedron", ("volume", "surface_area")), "ConvexSpheropolygon": ("polygon", ("area", "perimeter"))}.get(cls.__name__)
+    if core:
+        A.append(("core-set", core[1][0], 0.6))
+        A.append(("core-move", "centroid", None))
+        if not reduced:
+            A.append(("core-set", core[1][1], 1.7))
     # naturally failing operations
     for s in setters:
         if s in ("centroid", "center"):
@@ -144,6 +151,10 @@ def opname(op):
         return f"{name}.setter(move)"
     if kind == "read":
         return f"read:{name}"
+    if kind == "core-set":
+        return f"core.{name}.setter(x{val})"
+    if kind == "core-move":
+        return "core.centroid.setter(move)"
     return name
 
 
@@ -155,6 +166,8 @@ def mechname(op):
         return f"{name}.setter(bad-target)" if not (val == 0.0 and name == "radius") else name + ".setter"
     if kind == "read":
         return "read:" + name
+    if kind in ("core-set", "core-move"):
+        return "core." + name + ".setter"
     return name
 
 
@@ -189,6 +202,17 @@ def apply_op(obj, op):
                 setattr(obj, name, cur + np.array([0.6, -1.1, 0.45]) * (size / 3.0))     # a move of the order of the shape's size
             elif kind == "read":
                 getattr(obj, name)
+            elif kind in ("core-set", "core-move"):
+                core = obj.polyhedron if hasattr(obj, "polyhedron") else obj.polygon
+                if kind == "core-set":
+                    setattr(core, name, float(getattr(core, name)) * float(val) ** dim_of(name))
+                else:
+                    size, _ = fpr.length_scale(obj)
+                    step = np.array([0.6, -1.1, 0.45]) * (size / 3.0)
+                    if not fpr.is3d(obj):
+                        n = np.asarray(core.normal, float)
+                        step = step - n * float(step @ n)
+                    core.centroid = np.asarray(core.centroid, float) + step
             else:
                 getattr(obj, name)()
         except (NotImplementedError, ImportError):
